@@ -544,6 +544,29 @@ func init() {
 		var v Value = structV{a[0], a[1], a[2]}
 		return ifaceV{t: ex.eng.valueCtxPtrT, v: Ptr{slot: &v}}, false
 	}
+	// ---- internal/bytealg (assembly) on concrete operands
+	I["internal/bytealg.IndexByteString"] = func(ex *Exec, th *Thread, fn *ssa.Function, a []Value) (Value, bool) {
+		return ex.mkInt(int64(strings.IndexByte(cstr(a[0]), byte(ex.cint(a[1], "byte"))))), false
+	}
+	I["internal/bytealg.LastIndexByteString"] = func(ex *Exec, th *Thread, fn *ssa.Function, a []Value) (Value, bool) {
+		return ex.mkInt(int64(strings.LastIndexByte(cstr(a[0]), byte(ex.cint(a[1], "byte"))))), false
+	}
+	I["internal/bytealg.CountString"] = func(ex *Exec, th *Thread, fn *ssa.Function, a []Value) (Value, bool) {
+		return ex.mkInt(int64(strings.Count(cstr(a[0]), string([]byte{byte(ex.cint(a[1], "byte"))})))), false
+	}
+	I["internal/bytealg.IndexString"] = func(ex *Exec, th *Thread, fn *ssa.Function, a []Value) (Value, bool) {
+		return ex.mkInt(int64(strings.Index(cstr(a[0]), cstr(a[1])))), false
+	}
+	I["internal/bytealg.IndexByte"] = func(ex *Exec, th *Thread, fn *ssa.Function, a []Value) (Value, bool) {
+		sv := a[0].(sliceV)
+		c := byte(ex.cint(a[1], "byte"))
+		for i, e := range sv.arr {
+			if byte(ex.cint(e, "byte")) == c {
+				return ex.mkInt(int64(i)), false
+			}
+		}
+		return ex.mkInt(-1), false
+	}
 	// ---- runtime bits that interpreted std code touches
 	I["runtime.Gosched"] = func(ex *Exec, th *Thread, fn *ssa.Function, a []Value) (Value, bool) { return nil, false }
 	I["runtime.KeepAlive"] = I["runtime.Gosched"]
